@@ -22,12 +22,14 @@ def _z(v):
 
 
 class Explorer:
-    def __init__(self, fn, prog=None, source_call_id=None, tainted_calls=None):
+    def __init__(self, fn, prog=None, source_call_id=None, tainted_calls=None, src_value="T", sticky=False):
         self.fn = fn
         self.prog = prog
         self.src = source_call_id          # call id whose result is 'T'
         self.tainted_calls = tainted_calls  # optional predicate(call node) -> bool: result is 'T'
         self.noreturn = prog.noreturn_nodes(fn) if prog else set()
+        self.src_value = src_value      # abstract value of the tracked call's result ("T" failed / "Z" zero)
+        self.sticky = sticky            # every execution of the tracked call site yields src_value
         self.states = 0
         self._start_call = None
         self._initial = False
@@ -161,7 +163,7 @@ class Explorer:
         if not ev:
             return envf
         if ev["e"] == "C":
-            if self.src is not None and ev["x"].get("id") == self.src and not self._initial:
+            if self.src is not None and ev["x"].get("id") == self.src and not self._initial and not self.sticky:
                 d = dict(envf)
                 if "__src__" in d:
                     del d["__src__"]
@@ -257,14 +259,14 @@ class Explorer:
 
     # ----- exploration -------------------------------------------------------------------
     def run(self, start_nodes, env0=None, flags0=frozenset(), on_node=None, stop_at=None,
-            skip_start_event=False):
+            skip_start_event=False, edge_ok=None):
         """BFS over (node, env, flags).  on_node(node, env, flags) -> flags | None (None = prune).
         Returns list of terminal states (node, env, flags, parent-chain id) reached at function
         exit or at nodes for which stop_at(node) is true.  Paths ending in noreturn calls are
         dropped."""
         env0 = dict(env0 or {})
         if self.src is not None:
-            env0["__src__"] = "T"
+            env0["__src__"] = self.src_value
             for s0 in start_nodes:
                 if s0.ev and s0.ev["e"] == "C" and s0.ev["x"].get("id") == self.src:
                     self._start_call = s0
@@ -309,6 +311,8 @@ class Explorer:
                 nxt = []
                 for (m, si) in succ:
                     if si in feas:
+                        if edge_ok is not None and not edge_ok(node, si, m):
+                            continue
                         nxt.append((m, feas[si]))
             for (m, e2) in nxt:
                 st2 = (m, e2, flags)
